@@ -297,8 +297,66 @@ fn replay_crash(id: &'static str, path: &str, tier: Tier) -> i32 {
 }
 
 
+/// C05 (recovery clause): the data area is exactly partitioned right after recovering crash images
+/// of generated workloads and codec-synthesised images.
+pub fn partition_campaign(tier: Tier, seed: u64) -> (i32, Value) {
+    let (code, mut summary) = recovery_campaign("C05", "after-recovery-partition", tier, seed);
+    // synthesised images: duplicates in both scan orders, expired winners, markers, journals
+    let images = Arc::new(AtomicU64::new(0));
+    let nt = Arc::new(AtomicU64::new(0));
+    let (i2, n2) = (images.clone(), nt.clone());
+    let check = move |(version, items, journal_items, ttl): &(u32, Vec<crate::props::c15::Item>, Vec<u8>, bool), counting: bool| -> Result<(), String> {
+        let items: Vec<crate::props::c15::Item> = items.iter().filter(|i| !matches!(i, crate::props::c15::Item::Tombstone)).cloned().collect();
+        let img = crate::props::c15::build_synth(*version, &items, journal_items, false);
+        let cfg = crate::ops::Config { persistent: true, version: *version, cache: false, ttl: *ttl, dev: crate::ops::DevSize::Tiny(0), max_memory: None, plain_io: true, legacy_plain_meta: false, visible_cpus: 2 };
+        let r = crash::open_image(&img, &cfg, crate::props::c15::NOW, false, false);
+        if counting {
+            i2.fetch_add(1, Ordering::Relaxed);
+            if let Ok(dec) = crate::layout::decode_image(&img) {
+                if dec.all_records.len() > dec.live.len() {
+                    n2.fetch_add(1, Ordering::Relaxed);
+                }
+            }
+        }
+        match r {
+            Ok(o) => match o.contents.partition_problem {
+                Some((sig, msg)) => Err(format!("[after-recovery-{sig}] right after recovering a synthesised v{version} image: {msg}")),
+                None => Ok(()),
+            },
+            Err(_) => Ok(()),
+        }
+    };
+    let strat = (
+        proptest::prelude::prop_oneof![Just(1u32), Just(2u32), Just(3u32), Just(3u32)],
+        proptest::collection::vec(crate::props::c15::item(), 1..24),
+        proptest::collection::vec(proptest::prelude::any::<u8>(), 0..4),
+        proptest::prelude::any::<bool>(),
+    )
+        .boxed();
+    let found = run_lanes(strat, tier.pick(1200, 16_000), 300, seed ^ 0xC05, env::threads(), check);
+    env::wait_reaper();
+    let mut code = code;
+    let mut sfail = Value::Null;
+    if let Some((spec, msg)) = found {
+        let replay = json!({"property": "C05", "engine": "synth_partition", "signature": "after-recovery-partition", "message": msg, "spec": serde_json::to_value(&spec).unwrap()});
+        if !env::report_violation("C05", "after-recovery-partition", &replay) {
+            code = 1;
+            eprintln!("fxv: C05 (synthesised images): {msg}");
+        }
+        sfail = json!({"message": msg});
+    }
+    summary["synthesised_images"] = json!({"images": images.load(Ordering::Relaxed), "with_duplicate_generations": nt.load(Ordering::Relaxed), "failure": sfail});
+    summary["images"] = json!(summary["images"].as_u64().unwrap_or(0) + images.load(Ordering::Relaxed));
+    summary["distinct_nontrivial"] = json!(summary["distinct_nontrivial"].as_u64().unwrap_or(0) + nt.load(Ordering::Relaxed));
+    (code, summary)
+}
+
 /// C13 (recovery clause): memory accounting is exact after recovering any crash image.
 pub fn accounting_campaign(tier: Tier, seed: u64) -> (i32, Value) {
+    recovery_campaign("C13", "memory-accounting-after-recovery", tier, seed)
+}
+
+fn recovery_campaign(which: &'static str, signature: &'static str, tier: Tier, seed: u64) -> (i32, Value) {
     let totals = Arc::new(Mutex::new(CrashStats::default()));
     let workloads = Arc::new(AtomicU64::new(0));
     let last_failure: Arc<Mutex<Option<(CrashFailure, Vec<u8>)>>> = Arc::new(Mutex::new(None));
@@ -316,7 +374,7 @@ pub fn accounting_campaign(tier: Tier, seed: u64) -> (i32, Value) {
         let mut bud = budget(tier);
         bud.torn = 0;
         bud.extra_masks = 1;
-        let f = crash::explore(&run, case, "C13", &bud, &mut st, fp);
+        let f = crash::explore(&run, case, which, &bud, &mut st, fp);
         if counting {
             w2.fetch_add(1, Ordering::Relaxed);
             t2.lock().unwrap().merge(&st);
@@ -339,10 +397,10 @@ pub fn accounting_campaign(tier: Tier, seed: u64) -> (i32, Value) {
     let mut failure = Value::Null;
     if let Some((case, msg)) = found {
         let image = last_failure.lock().unwrap().take().map(|(_, i)| i).unwrap_or_default();
-        let replay = json!({"property": "C13", "engine": "crash_accounting", "signature": "memory-accounting-after-recovery", "message": msg, "case": serde_json::to_value(&case).unwrap(), "image_deflate_hex": hex(&miniz_oxide::deflate::compress_to_vec(&image, 6))});
-        if !env::report_violation("C13", "memory-accounting-after-recovery", &replay) {
+        let replay = json!({"property": which, "engine": "crash_accounting", "signature": signature, "message": msg, "case": serde_json::to_value(&case).unwrap(), "image_deflate_hex": hex(&miniz_oxide::deflate::compress_to_vec(&image, 6))});
+        if !env::report_violation(which, signature, &replay) {
             code = 1;
-            eprintln!("fxv: C13 (recovery of crash images): {msg}");
+            eprintln!("fxv: {which} (recovery of crash images): {msg}");
         }
         failure = json!({"message": msg});
     }
@@ -350,7 +408,7 @@ pub fn accounting_campaign(tier: Tier, seed: u64) -> (i32, Value) {
         "images": t.images,
         "workloads": workloads.load(Ordering::Relaxed),
         "distinct_nontrivial": t.nontrivial_c04.len(),
-        "rule": "crash images of generated persistent workloads (same crash-state model as C03, without tearing) are reopened; right after recovery memory_usage() must equal the sum over the recovered records of (size_of::<Record>() + key length + value length). Non-trivial: an image that held more than one generation of some key.",
+        "rule": if which == "C13" { "crash images of generated persistent workloads (same crash-state model as C03, without tearing) are reopened; right after recovery memory_usage() must equal the sum over the recovered records of (size_of::<Record>() + key length + value length). Non-trivial: an image that held more than one generation of some key." } else { "crash images of generated persistent workloads (crash-state model of C03, without tearing) and codec-synthesised v1/v2/v3 images (duplicate generations in both scan orders, expired winners, complete and pending markers, gaps, active journals) are reopened; right after recovery the snapshot must partition the data area exactly: every block in exactly one live extent or in the free pool, free runs merged, usage counter equal to the live blocks. Non-trivial: an image that held more than one generation of some key." },
         "failure": failure,
     });
     (code, summary)
@@ -363,7 +421,11 @@ pub fn replay_accounting(path: &str) -> i32 {
     if let Some(h) = doc["image_deflate_hex"].as_str() {
         if let Ok(img) = miniz_oxide::inflate::decompress_to_vec(&unhex(h)) {
             if let Ok(o) = crash::open_image(&img, &case.cfg, crate::ops::T0 + case.t0_offset, false, false) {
-                if o.contents.memory_usage != o.contents.memory_expected {
+                if let (Some((sig, msg)), Some("C05")) = (&o.contents.partition_problem, doc["property"].as_str()) {
+                    println!("replay: [{sig}] {msg}");
+                    code = 1;
+                }
+                if doc["property"].as_str() != Some("C05") && o.contents.memory_usage != o.contents.memory_expected {
                     println!("replay: memory_usage()={} but the recovered records sum to {}", o.contents.memory_usage, o.contents.memory_expected);
                     code = 1;
                 }
@@ -372,7 +434,7 @@ pub fn replay_accounting(path: &str) -> i32 {
     }
     env::wait_reaper();
     if code == 1 {
-        println!("VIOLATION property=C13 replay={path}");
+        println!("VIOLATION property={} replay={path}", doc["property"].as_str().unwrap_or("C13"));
     } else {
         println!("replay: the saved image is accounted exactly on this tree");
     }
